@@ -33,6 +33,7 @@ RULE = ("dedicated clock cases: every period in {1,2,3,7,10,1000,999983} x {1,2,
         "scripts of <= 25 operations set/get/tick/tick.sample/delay/posedge/negedge/changed/until/repeat/trigger "
         "combinations; split-signal scenarios: one bus / register whose slices are owned by 2-3 comb fragments, by 2-3 clock "
         "domains with coincident edges, or by a comb and a sync process, the whole signal read after every set/tick. "
+        "testbench-order scenarios: 3-5 testbenches setting and reading shared signals in the same time steps. "
         "Every scenario runs under k orders (quick 6, thorough 40) of all engine sets. "
         "non-trivial = some testbench record carries a value that differs from the signal's init or a non-zero time; "
         "distinct by case hash")
@@ -44,8 +45,10 @@ MODELLED = ("PySimEngine.step_design/advance, _PyEngineState.commit, _PySignalSt
             "memories are not modelled (order comparison only, in extra()); a broken trigger object is the canonical dead "
             "trigger; stale timeline entries of abandoned trigger objects are dropped when the owner awaits again (they only "
             "cause empty advance() calls, so the loop is stopped by time, not by count)")
-ASSUMPTIONS = ["write_disjoint: no two processes write a common signal bit in one delta (RTL: single-driver rule; user "
-               "processes: generated with disjoint outputs); testbenches never write process-driven signals",
+ASSUMPTIONS = ["write_disjoint: no two processes write a common signal bit in one delta; proved (C08_compiled_write_disjoint) "
+               "for every system of compiled RTL processes over well-formed linear targets, clocks and the two documented "
+               "user-process patterns whose LHS masks are pairwise disjoint (the single-driver rule); testbenches never "
+               "write process-driven signals",
                "combinational logic is acyclic (every step_design converges)",
                "periods below 2^53 fs for the default phase (float division in Period.__truediv__)"]
 
@@ -680,6 +683,52 @@ def _split_case(rng, kind):
             "t_end": 40 * period, "r": f"split:{kind}:{nparts}parts"}
 
 
+def _tborder_case(rng):
+    """3-5 testbenches that set and read the same signals and wake in the same time steps (same clock tick, equal
+    delays, delay 0): what each one reads depends on the testbenches before it in insertion order having already run
+    (and their set() calls having settled)."""
+    sigs = [[1, False, 0, False]]                       # clk
+    doms = [{"name": "sync", "edge": "pos", "clk": 0, "rst": None}]
+    period = rng.choice((4, 10, 1000))
+    clocks = [[0, period, rng.choice((None, 0, period // 2))]]
+    shared = []
+    for _ in range(rng.randrange(2, 4)):
+        w = rng.randrange(2, 6)
+        sigs.append([w, False, rng.randrange(0, 1 << w), False])
+        shared.append(len(sigs) - 1)
+    comb = len(sigs)
+    sigs.append([7, False, 0, False])
+    reg = len(sigs)
+    sigs.append([6, False, rng.randrange(0, 64), False])
+    a, b = shared[0], shared[1]
+    mods = [{"parent": None, "comb": [[comb, ["o2", rng.choice(("+", "^", "*")), ["s", a], ["s", b]]]],
+             "sync": [[0, reg, ["o2", "+", ["s", reg], ["s", rng.choice(shared)]], None]]}]
+    shapes = [[w, sg] for (w, sg, _, _) in sigs]
+    ntb = rng.randrange(3, 6)
+    tbs = []
+    common_delay = rng.choice((0, 1, period, period // 2))
+    for k in range(ntb):
+        script = []
+        for _ in range(rng.randrange(3, 8)):
+            c = rng.random()
+            if c < 0.30:
+                script.append(["tick", 0, [rng.choice(shared + [comb, reg])]])
+            elif c < 0.50:
+                script.append(["delay", common_delay if rng.random() < 0.8 else rng.choice((0, 1, period))])
+            # after every wake-up (and at start): read, write, read the shared state
+            for _ in range(rng.randrange(1, 3)):
+                q = rng.random()
+                if q < 0.45:
+                    i = rng.choice(shared)
+                    script.append(["set", i, rng.randrange(0, 1 << shapes[i][0])])
+                else:
+                    script.append(["get", rng.choice(shared + [comb, comb, reg])])
+        script.append(["get", comb])
+        tbs.append(script)
+    return {"sigs": sigs, "doms": doms, "mods": mods, "uprocs": [], "clocks": clocks, "tbs": tbs,
+            "t_end": 30 * period, "r": f"tborder:{ntb}tb"}
+
+
 def _scenario(rng, want_uproc):
     ndom = rng.choice((1, 1, 2, 2, 3))
     sigs, doms = [], []
@@ -840,6 +889,9 @@ def gen_cases(tier, seed):
     rng2 = random.Random(f"split:{seed}")
     for i in range(600 if thorough else 90):
         cases.append(_split_case(rng2, ("bus", "reg", "mixed")[i % 3]))
+    rng3 = random.Random(f"tborder:{seed}")
+    for i in range(400 if thorough else 50):
+        cases.append(_tborder_case(rng3))
     for c in cases:
         c["korders"] = k
     return cases
